@@ -152,6 +152,21 @@ impl RefQueue {
     }
     /// Walks and validates the chain starting at `head` (spec 2.7.5, 2.7.5.3).
     pub fn walk(&self, head: u16) -> Result<Chain, String> {
+        self.walk_with(head, &|i| self.read_desc(i))
+    }
+    /// Walks a chain reading the main descriptor table from a snapshot of its bytes.
+    pub fn walk_snapshot(&self, desc_bytes: &[u8], head: u16) -> Result<Chain, String> {
+        self.walk_with(head, &|i| {
+            let b = desc_bytes.get(16 * i..16 * i + 16).ok_or_else(|| format!("descriptor {} outside the snapshot", i))?;
+            Ok(Desc {
+                addr: u64::from_le_bytes(b[0..8].try_into().unwrap()),
+                len: u32::from_le_bytes(b[8..12].try_into().unwrap()),
+                flags: u16::from_le_bytes(b[12..14].try_into().unwrap()),
+                next: u16::from_le_bytes(b[14..16].try_into().unwrap()),
+            })
+        })
+    }
+    pub fn walk_with(&self, head: u16, read: &dyn Fn(usize) -> Result<Desc, String>) -> Result<Chain, String> {
         let n = self.n();
         if head as usize >= n {
             return Err(format!("available ring entry {} is not below the queue size {}", head, n));
@@ -171,7 +186,7 @@ impl RefQueue {
             }
             seen[i as usize] = true;
             descs.push(i);
-            let d = self.read_desc(i as usize)?;
+            let d = read(i as usize)?;
             if d.flags & !(F_NEXT | F_WRITE | F_INDIRECT) != 0 {
                 return Err(format!("descriptor {} has unknown flags {:#x}", i, d.flags));
             }
